@@ -2,6 +2,7 @@ package checks
 
 import (
 	"fmt"
+	"os"
 	"strings"
 	"sync"
 	"time"
@@ -61,10 +62,15 @@ func c02Program(specs []fnSpec) *Prog {
 		case s.nret == 1:
 			r := fmt.Sprintf("r%d", i+1)
 			st = append(st, Define{Names: []string{r}, Form: DefShort, Vals: []Expr{Binary{Op: "+", L: Call{Fn: name, Args: args}, R: lit(1)}}}, show("main:after-val-"+name, Var{r}))
-			st = append(st, Print{Args: []Expr{StrLit{V: "main:direct"}, Call{Fn: name, Args: args}, Call{Fn: name, Args: args}}})
+			// Several operands in one statement: only x is read next to a call. The functions write g and y,
+			// and Go leaves the order between a variable read and a call that writes the variable unspecified
+			// (found by the Go conformance run: gc performs the call first), so such statements are outside
+			// the defined fragment. x is defined after all functions and cannot be touched by them.
+			argsX := c02Args(effParams(i, s), []string{"x"}, 1000*(i+1))
+			st = append(st, Print{Args: []Expr{StrLit{V: "main:direct"}, Call{Fn: name, Args: args}, Call{Fn: name, Args: argsX}}})
 			// simultaneous assignment whose later value is a call (the callee may itself assign simultaneously)
-			st = append(st, Assign{Names: []string{"x", "g"}, Vals: []Expr{Binary{Op: "+", L: Var{"g"}, R: lit(1)}, Call{Fn: name, Args: args}}}, show("main:assign-with-call-"+name))
-			st = append(st, Assign{Names: []string{"g", "y", "x"}, Vals: []Expr{Var{"x"}, Call{Fn: name, Args: args}, Var{"g"}}}, show("main:rotate-with-call-"+name))
+			st = append(st, Assign{Names: []string{"x", "g"}, Vals: []Expr{Binary{Op: "+", L: Var{"x"}, R: lit(1)}, Call{Fn: name, Args: argsX}}}, show("main:assign-with-call-"+name))
+			st = append(st, Assign{Names: []string{"g", "y", "x"}, Vals: []Expr{Var{"x"}, Call{Fn: name, Args: argsX}, Binary{Op: "+", L: Var{"x"}, R: lit(5)}}}, show("main:rotate-with-call-"+name))
 		case s.nret >= 2:
 			var names []string
 			var vars []Expr
@@ -436,6 +442,27 @@ func C02() int {
 		}
 		r.Set("programs_generated", len(all))
 		all = uniq
+	}
+	{ // bind the reference interpreter's function/frame semantics to the Go toolchain (see goconf.go)
+		var conf []*Prog
+		for _, it := range all {
+			if progHas(it.prog, func(s Stmt) bool { _, ok := s.(SliceSet); return ok }) {
+				continue // growing slice writes have no Go counterpart
+			}
+			conf = append(conf, it.prog)
+			if !r.Thorough() && len(conf) >= 4000 {
+				break
+			}
+		}
+		compared, problems := goConformance(conf, 500)
+		r.Set("traces_validated_against_go_toolchain", compared)
+		if len(problems) > 0 {
+			for _, p := range problems {
+				fmt.Fprintln(os.Stderr, "MODEL CONFORMANCE:", p)
+			}
+			fmt.Fprintln(os.Stderr, "HARNESS ERROR: the reference interpreter does not agree with the Go toolchain on generated programs; nothing is judged")
+			return 2
+		}
 	}
 	distinct := findings.NewDistinct()
 	outcomes := findings.NewDistinct()
